@@ -226,15 +226,21 @@ def rule_ctor(ctx):
 
 
 def _blob_consumers(p):
-    return [p.cls(f"{IE}.BLOB").find_method("set_value_from_message"), p.cls("indi.client.elements.BLOB").find_method("set_value_from_message")]
+    """(function, concrete class) - the method may be inherited (template method with an overridden hook), so the
+    analysis runs it on an instance of the concrete BLOB class."""
+    out = []
+    for q in (f"{IE}.BLOB", "indi.client.elements.BLOB"):
+        ci = p.cls(q)
+        out.append((ci.find_method("set_value_from_message"), ci))
+    return out
 
 
 def rule_coerce(ctx):
     p = ctx.p
     fs = _blob_consumers(p)
     summaries = []
-    for f in fs:
-        paths = run_method(p, f, self_val=Term("param", "self", hint=f.cls), opts={"assert_forks": False})
+    for f, bcls in fs:
+        paths = run_method(p, f, self_val=Term("param", "self", hint=bcls), opts={"assert_forks": False, "inline": lambda fi, node: fi.cls is not None and fi.cls in bcls.mro and fi.name.endswith("from_message")})
         ctx.paths_enumerated += len(paths)
         ok = True
         size_checked = False
